@@ -80,3 +80,13 @@ Theorem C13_source_walk_visit : forall cb_ok e c n,
     Some ([("callback", [copy_of "TraitEntry" e c])], (if cb_ok then n + 1 else n), cb_ok, negb cb_ok).
 Proof. intros; split; [exact (tie_walk_visit_sharded _ _ _ _)|exact (tie_walk_visit_sync _ _ _ _)]. Qed.
 Print Assumptions C13_source_walk_visit.
+
+(* the byte counters around the dump and restore streams pass bytes, count and error through unchanged *)
+From Cache Require Import TieAccessors.
+Theorem C13_source_byte_counters : forall n ok,
+  run_cnt fn_readerCnt_Read "r" n ok =
+    Some ([VZ n; VPtr (negb ok) "io error"], [("inner Read", [VPtr true "p"]); ("count", [VStr "r.n"; VZ n])]) /\
+  run_cnt fn_writerCnt_Write "w" n ok =
+    Some ([VZ n; VPtr (negb ok) "io error"], [("inner Write", [VPtr true "p"]); ("count", [VStr "w.n"; VZ n])]).
+Proof. exact tie_byte_counters. Qed.
+Print Assumptions C13_source_byte_counters.
